@@ -168,6 +168,14 @@ fn generate(sans_idx: usize, mode: u8) -> Result<String, String> {
         let name = rustls::pki_types::ServerName::try_from("localhost").unwrap();
         let t = rustls::pki_types::UnixTime::since_unix_epoch(std::time::Duration::from_secs(now as u64));
         v.verify_server_cert(&ee, &[], &name, &[], t).map_err(|e| format!("own certificate refused by hash pinning: {e:?}"))?;
+        // ... also when the pin is added to a verifier that already holds other (greater) digests
+        let mut v2 = ServerHashVerification::new((0u8..5).map(|i| {
+            let mut b = [0xffu8; 32];
+            b[31] = i;
+            Sha256Digest::new(b)
+        }));
+        v2.add(chain[0].hash());
+        v2.verify_server_cert(&ee, &[], &name, &[], t).map_err(|e| format!("own certificate refused by hash pinning configured through add(): {e:?}"))?;
     }
     // the key matches the certificate: a TLS server config can be built from the identity
     let _ = wtransport::tls::server::build_default_tls_config(id.clone_identity());
